@@ -133,8 +133,9 @@ def exec_c02(cfg, devs):
             def unsol_body():
                 s.lazy_point('env.value_updated')
                 if ex.env.links and not ex.env.links[-1].closed and not ex.frozen:
-                    dev.params[2].value = 7.25
-                    ex.env.links[-1].inject(*dev.value_updated_packet(2))
+                    upi = cfg.get('unsol_param', 2)
+                    dev.params[upi].value = 7.25 if upi == 2 else 5
+                    ex.env.links[-1].inject(*dev.value_updated_packet(upi))
             s.spawn(None, unsol_body, name='env-unsolicited')
         if cfg.get('driver_fault', True) or cfg.get('unsol'):
             # the environment threads park themselves (as lazy threads, one deviation to fire them at any later point)
@@ -465,6 +466,8 @@ def configs(quick):
         _cfg('cf:p10:hello:eager', 'cf', 10, send_fault=True, nlog=0, nparam=1, hello=True, eager=True),
         _cfg('scf:p10:hello:eager', 'scf', 10, send_fault=True, nlog=0, nparam=1, hello=True, eager=True),
         _cfg('cf:p10:unsol', 'cf', 10, unsol=True, driver_fault=False, send_fault=False),
+        # the notification is about the parameter that is read first (it repeats a value the download already has)
+        _cfg('cf:p10:unsol0', 'cf', 10, unsol=True, unsol_param=0, driver_fault=False, send_fault=False),
         _cfg('scf:p10:retry', 'scf', 10, nlog=0, nparam=1, retry=True),
         _cfg('scf:p10:retry:handoff', 'scf', 10, nlog=0, nparam=1, retry=True, policy='handoff'),
         _cfg('cf:p10:hello:handoff', 'cf', 10, send_fault=True, nlog=0, nparam=1, hello=True, policy='handoff'),
